@@ -126,13 +126,29 @@ fn main() {
     }
     // 3. lengths straddling the 8 KiB buffer of the implementation
     if big {
-        for base in [8192usize, 16384] {
+        for base in [8192usize, 16384, 3 * 8192] {
             for d in -4i64..=5 {
                 let n = (base as i64 + d) as usize;
                 let structured: Vec<u8> = (0..n).map(|i| if i % 5 == 0 { 0xFF } else { (i % 251) as u8 }).collect();
                 let random: Vec<u8> = (0..n).map(|_| rng.gen()).collect();
                 for data in [structured, random] {
                     for plan in [vec![], vec![8191], vec![8193], vec![1, 2, 3, 4, 5, 6, 7, 8, 9], vec![3], vec![8190, 1, 1, 7], vec![4096, 4097]] {
+                        eval(&mut out, &data, &plan, false);
+                    }
+                    // a short first read (any remainder mod 4), then reads that fill the implementation's buffer completely
+                    if d == 0 || d == 5 {
+                        for h in 1..=9usize {
+                            for bigread in [8192usize, 8193, 4096] {
+                                let mut plan = vec![h];
+                                plan.extend(std::iter::repeat(bigread).take(8));
+                                eval(&mut out, &data, &plan, false);
+                            }
+                        }
+                    }
+                    // seeded mixtures of small and buffer-sized reads
+                    for _ in 0..6 {
+                        let sizes = [1usize, 2, 3, 5, 7, 4095, 4096, 8191, 8192, 8193];
+                        let plan: Vec<usize> = (0..rng.gen_range(2..7)).map(|_| sizes[rng.gen_range(0..sizes.len())]).collect();
                         eval(&mut out, &data, &plan, false);
                     }
                 }
